@@ -1718,3 +1718,63 @@ def unroll_constant_loops(tree):
         _SA().visit(tree)
         ast.fix_missing_locations(tree)
     return done[0]
+
+
+# ------------------------------------------------------------------ N6
+def resugar_locks(tree):
+    """N6: `L.acquire()` directly followed by `try: BODY finally:
+    L.release()` is `with L: BODY`; a local alias bound once to a
+    module-level name (`lock = COOKLOCK`) is written back.  The lock rules
+    look for the `with` form."""
+    done = 0
+    modnames = {t.id for st in tree.body if isinstance(st, ast.Assign)
+                for t in st.targets if isinstance(t, ast.Name)}
+    for fn in [x for x in ast.walk(tree)
+               if isinstance(x, (ast.FunctionDef, ast.AsyncFunctionDef))]:
+        alias = {}
+        cnt = {}
+        for x in ast.walk(fn):
+            if isinstance(x, ast.Name) and isinstance(x.ctx, ast.Store):
+                cnt[x.id] = cnt.get(x.id, 0) + 1
+        for x in ast.walk(fn):
+            if isinstance(x, ast.Assign) and len(x.targets) == 1 and \
+                    isinstance(x.targets[0], ast.Name) and isinstance(
+                        x.value, ast.Name) and x.value.id in modnames and \
+                    cnt.get(x.targets[0].id) == 1:
+                alias[x.targets[0].id] = x.value.id
+        for node in ast.walk(fn):
+            for fld in ('body', 'orelse', 'finalbody'):
+                lst = getattr(node, fld, None)
+                if not (isinstance(lst, list) and len(lst) >= 2 and
+                        isinstance(lst[0], ast.stmt)):
+                    continue
+                i = 0
+                while i + 1 < len(lst):
+                    a, b = lst[i], lst[i + 1]
+
+                    def lock_call(st, meth):
+                        if isinstance(st, ast.Expr) and isinstance(
+                                st.value, ast.Call) and isinstance(
+                                st.value.func, ast.Attribute) and \
+                                st.value.func.attr == meth and \
+                                not st.value.args:
+                            return ast.unparse(st.value.func.value)
+                        return None
+                    la = lock_call(a, 'acquire')
+                    if la is not None and isinstance(b, ast.Try) and \
+                            not b.handlers and not b.orelse and \
+                            len(b.finalbody) == 1 and \
+                            lock_call(b.finalbody[0], 'release') == la:
+                        ctx = a.value.func.value
+                        if isinstance(ctx, ast.Name) and ctx.id in alias:
+                            ctx = ast.Name(id=alias[ctx.id], ctx=ast.Load())
+                        w = ast.With(items=[ast.withitem(
+                            context_expr=ctx, optional_vars=None)],
+                            body=b.body)
+                        ast.copy_location(w, a)
+                        lst[i:i + 2] = [w]
+                        done += 1
+                    i += 1
+    if done:
+        ast.fix_missing_locations(tree)
+    return done
